@@ -18,6 +18,7 @@ LEVEL_NOTE = ("gather model and the Larr reduction functional are hand models (c
               "function forwards to the rule (fcst u obs, plus weights where it passes weights_dims); a weights-only dimension elsewhere "
               "is the documented pass-through of apply_weights and is only required to behave consistently")
 TECHNIQUE = "Coq proof about the dimension-rule model + exhaustive/sampled correspondence with gather_dimensions and all public functions"
+TIE_IS_SPEC = True
 SITES = []
 RULE = ("rule: every configuration (fcst dims, obs dims, weights dims|None, reduce, preserve, score-specific) over a universe of names, "
         "requests in every spelling (None, 'all', bare string, list incl. empty, absent name, both options); public functions: random "
@@ -169,9 +170,11 @@ def public_functions(ctx, names=None):
                     if not ok:
                         ctx.violation(f"{name}: preserve_dims='{P[0]}' differs from preserve_dims=['{P[0]}']: {why}", dict(desc0, P=P), "identical", why)
             # errors: both options / absent name
-            both = call(dd[:1], dd[:1])
-            if both != ("err", "err:ValueError"):
-                ctx.violation(f"{name}: naming both options does not raise ValueError", desc0, "err:ValueError", str(both[1])[:100])
+            for rd_, pd_ in ((dd[:1], dd[:1]), (dd[:1], "all"), ("all", dd[:1]), ("all", []), ([], "all"), (dd[0], dd[0])):
+                both = call(rd_, pd_)
+                if both != ("err", "err:ValueError"):
+                    ctx.violation(f"{name}: naming both options (reduce_dims={rd_!r}, preserve_dims={pd_!r}) does not raise ValueError",
+                                  dict(desc0, reduce_dims=rd_, preserve_dims=pd_), "err:ValueError", str(both[1])[:100])
             for bad in (call(["zz"], None), call(None, ["zz"])):
                 if bad != ("err", "err:ValueError"):
                     ctx.violation(f"{name}: naming a dimension that is not in the data does not raise ValueError", desc0, "err:ValueError", str(bad[1])[:100])
@@ -253,20 +256,49 @@ def recipe_functions(ctx):
                     if not ok:
                         ctx.violation(f"{rc.name}: preserve_dims='{P[0]}' differs from preserve_dims=['{P[0]}']: {why}", dict(desc, P=P), "identical", why)
             if dd:
-                both = call(dd[:1], dd[:1])
-                if both != ("err", "err:ValueError"):
-                    ctx.violation(f"{rc.name}: naming both options does not raise ValueError", desc, "err:ValueError", str(both[1])[:100])
+                for rd_, pd_ in ((dd[:1], dd[:1]), (dd[:1], "all"), ("all", dd[:1]), ("all", []), ([], "all"), ("all", "all"), (dd[0], dd[0])):
+                    both = call(rd_, pd_)
+                    if both != ("err", "err:ValueError"):
+                        ctx.violation(f"{rc.name}: naming both options (reduce_dims={rd_!r}, preserve_dims={pd_!r}) does not raise ValueError",
+                                      dict(desc, reduce_dims=rd_, preserve_dims=pd_), "err:ValueError", str(both[1])[:100])
             for bad in (call(["zz"], None), call(None, ["zz"])):
                 if bad != ("err", "err:ValueError"):
                     ctx.violation(f"{rc.name}: naming a dimension that is not in the data does not raise ValueError", desc, "err:ValueError", str(bad[1])[:100])
 
 
+def manager_multistep(ctx):
+    """a request made through transform() concerns only the object it returns: the manager's own metrics keep the
+    dimensions of the manager's own (default) request before and after"""
+    import scores
+    rng = ctx.rng
+    for _ in range(ctx.n(6, 40)):
+        sizes = {"a": rng.randint(2, 3), "b": rng.randint(2, 3)}
+        f = gens.rand_da(rng, sizes, lo=0, hi=4, den=1, nan_p=0.1)
+        o = gens.rand_da(rng, sizes, lo=0, hi=4, den=1, nan_p=0.1)
+        m = scores.categorical.ThresholdEventOperator().make_contingency_manager(f, o, event_threshold=2)
+        before = {k: core.call_impl(getattr(m, k)) for k in ("accuracy", "probability_of_detection", "frequency_bias")}
+        keep = rng.choice(["a", "b"])
+        t = core.call_impl(m.transform, preserve_dims=[keep])
+        after = {k: core.call_impl(getattr(m, k)) for k in before}
+        desc = {"fn": "BinaryContingencyManager multi-step", "fcst": gens.da_repr(f), "obs": gens.da_repr(o), "transform_preserve": keep}
+        ctx.case(desc)
+        ctx.count("manager_multistep")
+        if t[0] == "ok" and set(t[1].accuracy().dims) != {keep}:
+            ctx.violation(f"transform(preserve_dims=['{keep}']).accuracy() has dims {t[1].accuracy().dims}", desc, [keep], list(t[1].accuracy().dims))
+        for k in before:
+            ok, why = scorelib.same_result(before[k], after[k])
+            if not ok:
+                ctx.violation(f"manager.{k}() changes after an unrelated manager.transform(preserve_dims=['{keep}']) call: {why}", desc, "unchanged", why)
+
+
 def run(ctx):
     public_functions(ctx)
     recipe_functions(ctx)
+    manager_multistep(ctx)
     gather_sweep(ctx)
 
 
 def run_without_model(ctx):
     """used when the extracted model does not build against the current source: relations between public calls only"""
     recipe_functions(ctx)
+    manager_multistep(ctx)
